@@ -181,7 +181,8 @@ Proof. exact source_read_step. Qed.
 Print Assumptions C11_source_read_step.
 
 (* one read into a caller buffer with or without count pointer: a short count signals the end
-   (count pointer) or FATAL is returned (no count pointer, end not yet registered) *)
+   (count pointer) or FATAL is returned (no count pointer; also when the end has been registered
+   by an earlier call: repair 103c295) *)
 Theorem C11_source_read : forall junk s n u wc,
   source_wf s -> eof_ok s -> 0 <= n -> len u = n ->
   let k := next_k s n in
@@ -194,17 +195,15 @@ Theorem C11_source_read : forall junk s n u wc,
      rc = E_NONE /\ cnt = (if wc then Some k else None) /\
      source_rest s' = drop k (source_rest s) /\
      r_in s' = r_in s + k /\ r_out s' = r_out s + k) /\
-  ((wc = false /\ k < n /\ r_eof s = false) -> rc = E_FATAL /\ cnt = None /\ r_in s' = r_in s /\ r_out s' = r_out s).
+  ((wc = false /\ k < n) -> rc = E_FATAL /\ cnt = None /\ r_in s' = r_in s /\ r_out s' = r_out s).
 Proof. exact source_read_data. Qed.
 Print Assumptions C11_source_read.
 
 (* Exact reads (bytes_out == NULL).  Documented: "Returns an error if bytes_out is NULL and less
-   than bytes_avail are read."  Full-strength statement (does NOT hold of the code, see below):
-     forall s n u, source_wf s -> eof_ok s -> 0 <= n -> len u = n -> len (source_rest s) < n ->
-       rc (source_read junk s n (Some u) false NoFault) = E_FATAL.
-   It holds under the exact guard "the end has not been registered by an earlier call": *)
-Theorem C11_source_read_exact_guarded : forall junk s n u,
-  source_wf s -> eof_ok s -> 0 <= n -> len u = n -> (r_eof s = false \/ n = 0) ->
+   than bytes_avail are read."  The full-strength statement, for every source state - also after
+   the end has been registered by an earlier call (finding F-C11b, repaired in /repo by 103c295): *)
+Theorem C11_source_read_exact : forall junk s n u,
+  source_wf s -> eof_ok s -> 0 <= n -> len u = n ->
   let '(s', rc, cnt, data') := source_read junk s n (Some u) false NoFault in
   cnt = None /\
   (n <= len (source_rest s) ->
@@ -212,17 +211,35 @@ Theorem C11_source_read_exact_guarded : forall junk s n u,
      r_in s' = r_in s + n /\ r_out s' = r_out s + n) /\
   (len (source_rest s) < n -> rc = E_FATAL /\ r_in s' = r_in s /\ r_out s' = r_out s).
 Proof. exact source_read_exact. Qed.
-Print Assumptions C11_source_read_exact_guarded.
+Print Assumptions C11_source_read_exact.
 
-(* ... and is refuted without the guard (known finding F-C11b, known_findings.d/C11.txt): after a
-   counted read has returned 0 at the end, an exact read of n > 0 bytes returns success and leaves
-   the caller's buffer untouched. *)
-Theorem C11_source_read_exact_after_eof_refuted :
+(* once the end is registered, an exact request of n > 0 bytes (with or without data pointer, whatever
+   the stream would do) is refused and the source, the caller's buffer and *bytes_out are left alone *)
+Theorem C11_source_read_exact_at_eof : forall junk s n data flt,
+  r_eof s = true -> 0 < n ->
+  source_read junk s n data false flt = (s, E_FATAL, None, data).
+Proof. exact source_read_exact_at_eof. Qed.
+Print Assumptions C11_source_read_exact_at_eof.
+
+(* Regression guard: with the early return as it was before 103c295 (`source_read_old`: success
+   whenever nothing is asked or the end is registered) the statement C11_source_read_exact is false -
+   after a counted read has returned 0 at the end, an exact read of n > 0 bytes returns success and
+   leaves the caller's buffer untouched, where the repaired function returns FATAL.  The two functions
+   differ in exactly this case. *)
+Theorem C11_source_read_exact_old_refuted :
   exists s n u, source_wf s /\ eof_ok s /\ 0 < n /\ len u = n /\ len (source_rest s) < n /\
-    let '(_, rc, _, data') := source_read (fun _ => 0) s n (Some u) false NoFault in
-    rc = E_NONE /\ data' = Some u.
-Proof. exact source_read_exact_after_eof_refuted. Qed.
-Print Assumptions C11_source_read_exact_after_eof_refuted.
+    (let '(_, rc, _, data') := source_read_old (fun _ => 0) s n (Some u) false NoFault in
+     rc = E_NONE /\ data' = Some u) /\
+    (let '(s', rc, _, data') := source_read (fun _ => 0) s n (Some u) false NoFault in
+     rc = E_FATAL /\ data' = Some u /\ s' = s).
+Proof. exact source_read_exact_old_refuted. Qed.
+Print Assumptions C11_source_read_exact_old_refuted.
+
+Theorem C11_source_read_old_differs : forall junk s n data wc flt,
+  source_read_old junk s n data wc flt <> source_read junk s n data wc flt <->
+  (r_eof s = true /\ wc = false /\ 0 < n).
+Proof. exact source_read_old_differs. Qed.
+Print Assumptions C11_source_read_old_differs.
 
 (* NULL data skips: an array source skips min (n, left) bytes with the same end signalling ... *)
 Theorem C11_source_skip_buffer : forall junk s a n wc,
@@ -235,38 +252,46 @@ Theorem C11_source_skip_buffer : forall junk s a n wc,
      rc = E_NONE /\ cnt = (if wc then Some k else None) /\
      source_rest s' = drop k (source_rest s) /\
      r_in s' = r_in s + k /\ r_out s' = r_out s + k) /\
-  ((wc = false /\ k < n /\ r_eof s = false) -> rc = E_FATAL /\ cnt = None /\ r_in s' = r_in s /\ r_out s' = r_out s).
+  ((wc = false /\ k < n) -> rc = E_FATAL /\ cnt = None /\ r_in s' = r_in s /\ r_out s' = r_out s).
 Proof. exact source_skip_buffer. Qed.
 Print Assumptions C11_source_skip_buffer.
 
 (* ... a file source seeks n bytes forward without looking for the end (as the code documents:
-   "seek now and check for potential end of file next time"); the mirror is not written *)
+   "seek now and check for potential end of file next time"); the mirror is not written.  Once the
+   end has been registered the call leaves the source alone: a counted skip reports 0, an exact skip
+   of n > 0 bytes is FATAL. *)
 Theorem C11_source_skip_file : forall junk s nm f pos n wc,
   r_dev s = RFile nm f pos -> source_wf s -> eof_ok s -> 0 <= n ->
   let '(s', rc, cnt, data') := source_read junk s n None wc NoFault in
   data' = None /\ source_wf s' /\ eof_ok s' /\ source_stored s' = source_stored s /\ r_mir s' = r_mir s /\
-  rc = E_NONE /\
+  rc = (if r_eof s && negb wc && (0 <? n) then E_FATAL else E_NONE) /\
   let k := if r_eof s then 0 else n in
   cnt = (if wc then Some k else None) /\
   source_rest s' = drop k (source_rest s) /\ source_pos s' = source_pos s + k /\
-  r_in s' = r_in s + k /\ r_out s' = r_out s + k.
+  r_in s' = r_in s + k /\ r_out s' = r_out s + k /\
+  (r_eof s = true -> s' = s).
 Proof. exact source_skip_file. Qed.
 Print Assumptions C11_source_skip_file.
 
-(* align skips exactly (a - out mod a) mod a bytes *)
+(* align skips exactly (a - out mod a) mod a bytes; once the end has been registered, an align that
+   needs padding is FATAL and leaves the source as it is *)
 Theorem C11_source_align_file : forall junk s nm f pos al,
-  r_dev s = RFile nm f pos -> source_wf s -> eof_ok s -> r_eof s = false -> 0 < al -> 0 <= r_out s ->
+  r_dev s = RFile nm f pos -> source_wf s -> eof_ok s -> 0 < al -> 0 <= r_out s ->
   let pad := (al - r_out s mod al) mod al in
   let '(s', rc) := source_align junk s al NoFault in
-  rc = E_NONE /\ 0 <= pad < al /\ source_pos s' = source_pos s + pad /\
-  source_rest s' = drop pad (source_rest s) /\
-  r_out s' = r_out s + pad /\ r_in s' = r_in s + pad /\ r_out s' mod al = 0 /\
+  0 <= pad < al /\
+  ((r_eof s = false \/ pad = 0) ->
+     rc = E_NONE /\ source_pos s' = source_pos s + pad /\
+     source_rest s' = drop pad (source_rest s) /\
+     r_out s' = r_out s + pad /\ r_in s' = r_in s + pad /\ r_out s' mod al = 0) /\
+  ((r_eof s = true /\ 0 < pad) -> rc = E_FATAL /\ s' = s) /\
   source_wf s' /\ eof_ok s' /\ r_mir s' = r_mir s.
 Proof. exact source_align_file. Qed.
 Print Assumptions C11_source_align_file.
 
+(* an array source: success iff the padding is there (after the registered end: iff none is needed) *)
 Theorem C11_source_align_buffer : forall junk s a al,
-  r_dev s = RBuf a -> source_wf s -> eof_ok s -> r_eof s = false -> 0 < al -> 0 <= r_out s ->
+  r_dev s = RBuf a -> source_wf s -> eof_ok s -> 0 < al -> 0 <= r_out s ->
   let pad := (al - r_out s mod al) mod al in
   let '(s', rc) := source_align junk s al NoFault in
   0 <= pad < al /\
